@@ -58,6 +58,7 @@ class Gen:
             else: seen[self.names[a]] = a
         self.used = set()
         self.tid = 0; self.eid = 0; self.terms = {}; self.theory_names = {}
+        self.elem_pool = []          # elements defined so far (also in earlier steps): later theory atoms may refer to them again
     def atom(self):
         a = self.r.randint(1, self.natoms) if not (self.big and self.r.random() < 0.2) else self.r.choice([I32, 100000, 4711])
         self.used.add(a); return a
@@ -104,6 +105,11 @@ class Gen:
         nm = self.r.choice(IDENTS); t = self.tid; self.terms[t] = ("sym", nm); ws.append("TS,%d,%s" % (t, hexs(nm.encode()))); self.tid += 1
         elems = []; estruct = []
         for _ in range(self.r.choice([0, 1, 1, 2])):
+            if self.elem_pool and self.r.random() < 0.3:
+                # an element of an earlier atom (possibly of an earlier step): ids of terms and elements are persistent
+                e, ts, cond = self.r.choice(self.elem_pool)
+                if e not in elems: elems.append(e); estruct.append((ts, cond))
+                continue
             ts = []
             for _ in range(self.r.choice([0, 1, 1, 2])):
                 a, w = self.term(); ts.append(a); ws += w
@@ -111,6 +117,7 @@ class Gen:
             if not ts and not cond: a, w = self.term(); ts.append(a); ws += w
             e = self.eid; self.eid += 1
             ws.append("TE,%d,%s,%s" % (e, progs.lst(ts), progs.lst(cond))); elems.append(e); estruct.append((ts, cond))
+            self.elem_pool.append((e, ts, cond))
         guard = None
         if self.r.random() < 0.4:
             op = self.tid; o = self.r.choice(["<=", "=", ">", "!="]); self.terms[op] = ("sym", o); ws.append("TS,%d,%s" % (op, hexs(o.encode()))); self.tid += 1
